@@ -242,7 +242,8 @@ C06_FROM_C05 = ('the meridian text is matched in the spelling of the picture', '
                 'with a day field the month comes from the day of the year')
 ALSO = {
     # what the writer emits must be read back: the reader-side rules about values the writer can produce
-    'C06': lambda c, r: c['prop'] == 'C05' and any(x in c['clause'] for x in C06_FROM_C05),
+    'C06': lambda c, r: (c['prop'] == 'C05' and any(x in c['clause'] for x in C06_FROM_C05))
+    or (c['prop'] == 'C01' and c['root'] == 'common::the_day_of_year'),      # DDD: the writer's day of the year is what the reader inverts
     # chronological order across types: the mixed comparisons
     'C07': lambda c, r: c['prop'] == 'C17' and ('compar' in c['clause'] or 'cmp' in c['clause'].lower()),
     # the three date-like types satisfy the same characterisation of truncation / rounding / last day / month arithmetic
@@ -255,7 +256,11 @@ ALSO = {
     # the text channel of the decoder ends in the parser's assembly step
     'C15': lambda c, r: c['prop'] == 'C05' and 'TryFrom<format::NaiveDateTime>' in r['root'],
     # adding months relies on the month lengths (leap rule, month-length table)
-    'C09': lambda c, r: c['prop'] == 'C01' and (r['root'] in ('common::is_leap_year', 'common::days_of_month') or 'K-step' in c['clause']),
+    # ... and on both day-number conversions (the date is split with julian2date and rebuilt with date2julian): K-lin / K-step / K-anchor / K-inv
+    'C09': lambda c, r: c['prop'] == 'C01' and (r['root'] in ('common::is_leap_year', 'common::days_of_month') or re.search(r'\bK-(step|inv|lin|anchor)', c['clause']) is not None),
+    # calendar units split the day number into (y, m, d) and rebuild the boundary: the same kernel rules
+    'C10': lambda c, r: c['prop'] == 'C01' and re.search(r'\bK-(step|inv|lin|anchor)', c['clause']) is not None,
+    'C11': lambda c, r: c['prop'] == 'C01' and re.search(r'\bK-(step|inv|lin|anchor)', c['clause']) is not None,
     # the parser's final assembly validates the date with the calendar acceptance rule
     'C05': lambda c, r: c['prop'] == 'C01' and r['root'] in ('date::Date::validate_ymd', 'date::Date::try_from_ymd'),
 }
@@ -529,6 +534,7 @@ def extra_C06(rep, ctx):
     digit_rendering(rep, ctx)
     meridian_map(rep, ctx)
     number_text(rep, ctx)
+    name_readers(rep, ctx)
 
 
 def meridian_map(rep, ctx):
@@ -544,14 +550,31 @@ def meridian_map(rep, ctx):
     rep.extra.setdefault('meridian_map', {})[ctx.cfg] = {'cases': d['cases'], 'records': len(d['records'])}
 
 
-def number_text(rep, ctx):
-    """stage E1j (sda/numparse.py): parse_number returns the number its digits denote, with the sign of the prefix"""
+def name_readers(rep, ctx):
+    """stage E1m (sda/names.py): the reader consumes the whole name the writer emits, per style"""
+    if ctx.cfg in pipeline.ONLY:
+        return
+    d = pipeline.load_json(pipeline.ensure_stage('e1m', ctx.cfg))
+    for r in d['records']:
+        fn = 'format::parse_week_day_name' if 'week_day' in r['clause'] else 'format::parse_month_name'
+        key = f"R-ens|{fn}|{r['clause']}"
+        rep.ob(key, r['ok'], f"R-ens {fn}: {r['clause']} -- {r['detail'][:300]}", {'names': r, 'config': ctx.cfg}, rule='E1m-name-readers')
+    for t in d['notes']:
+        rep.notes.append(f"[{ctx.cfg}] E1m (undecided, not a violation): {t}")
+    rep.extra.setdefault('name_readers', {})[ctx.cfg] = {'runs': d['runs'], 'records': len(d['records'])}
+
+
+def number_text(rep, ctx, only=None):
+    """stage E1j (sda/numparse.py): parse_number returns the number its digits denote, with the sign of the prefix; parse_year
+    hands on the sign of the text"""
     if ctx.cfg in pipeline.ONLY:
         return
     d = pipeline.load_json(pipeline.ensure_stage('e1j', ctx.cfg))
     n = {'proved': 0, 'refuted': 0, 'undecided': 0}
     for r in d['records']:
-        key = f"R-ens|format::parse_number|{r['clause']}"
+        if only is not None and only not in r['clause']:
+            continue
+        key = f"R-ens|{'format::parse_year' if 'parse_year' in r['clause'] else 'format::parse_number'}|{r['clause']}"
         if r['ok'] is None:
             n['undecided'] += 1
             rep.notes.append(f"[{ctx.cfg}] E1j undecided (not a violation): {r['clause']} -- {r['detail'][:300]}")
@@ -567,6 +590,7 @@ def extra_C05(rep, ctx):
     float_forms(rep, ctx, ('C05',))
     meridian_map(rep, ctx)
     number_text(rep, ctx)
+    name_readers(rep, ctx)
 
 
 def digit_rendering(rep, ctx):
@@ -649,6 +673,7 @@ def extra_C17(rep, ctx):
 
 def extra_C18(rep, ctx):
     graph.clock_readers(rep, ctx.facts)
+    number_text(rep, ctx, only='parse_year')
 
 
 EXTRA_RULES = {'C12': extra_C12, 'C04': extra_C04, 'C05': extra_C05, 'C16': extra_C16, 'C19': extra_C19, 'C06': extra_C06, 'C10': extra_C10, 'C11': extra_C11, 'C15': extra_C15, 'C17': extra_C17, 'C18': extra_C18}
